@@ -17,7 +17,7 @@ class C05(F.PropCheck):
     assumptions = ['lateness of timer callbacks <= J (J < 1 s) for the bounds', 'H_slot: a free out-queue slot at a timer1 tick while the idle time is in [T-2, T]',
                    'uptime seconds < 2^32; uptime polled at least once per wrap of the 32-bit microsecond counter',
                    'not in configuration mode / firmware update', 'espconn_sent accepts data on a healthy link (keep-alive clause)']
-    rule = ('time sweeps: granted timeout T in 10..240 (register result and set-activity-timeout result), phase of the uptime second vs. the '
+    rule = ('time sweeps: granted timeout T in 0..255 (register result and set-activity-timeout result with any min/max bytes, grant different from the register value), phase of the uptime second vs. the '
             '1 s timers 0..999 ms, timer lateness scripts, server answering every ping after 0..900 ms / late / silent from an arbitrary time, '
             'local traffic none / periodic 1-4 s / bursts, stalled link, aged devices (uptime across 2^32 ms); non-trivial = registered at least once; '
             'distinct by sha256 of the event text')
@@ -81,7 +81,7 @@ class C05(F.PropCheck):
                         early_restart = [t for t in restart_t if t <= lim]
                         if not early_restart and (not d or not w):
                             v.append('registered with timeout %d s, nothing received after %d us, connection not closed and reconnect not started by %d us' % (T, tau, lim)); break
-        # --- keep-alive clause: intervals in which the device is registered, T in 10..50, the link is healthy and every ping is answered promptly
+        # --- keep-alive clause: intervals in which the device is registered, granted T in 5..58, the link is healthy and every ping is answered promptly
         v += self.keepalive(case, outs, msgs, conns, J)
         return v
 
@@ -131,7 +131,9 @@ class C05(F.PropCheck):
                 if tok is None: tok = t; T = pay[c['OFF_RESULT_TIMEOUT']]; cn = n
             elif call == c['SRV_SET_ACTIVITY_TIMEOUT_RESULT'] and tok is not None: T = pay[c['OFF_SAT_RESULT_TIMEOUT']]
             elif call in (c['SRV_VERSIONERROR'],): return v
-        if tok is None or not (10 <= T <= 50): return v
+        # the theorem's range: KA_MIN = max(5, window) <= T <= KA_WD_MAX = min(watchdog, soft watchdog - 1) - 2  (5..58 on this tree)
+        lo = max(5, c['PING_WINDOW_MINUS']); hi = min(c['WATCHDOG_TIMEOUT_S'], c['WATCHDOG_SOFT_TIMEOUT_S'] - 1) - 2
+        if tok is None or not (lo <= T <= hi): return v
         # every ping answered promptly: each WIRE ping at t has a server delivery in (t, t + 1 s]
         pings = [ints[0] for (k, ints, _) in outs if k == 'WIRE' and ints[1] == cn and ints[2] == c['CALL_PING']]
         deliveries = sorted(t for (t, n, call, pay) in msgs if n == cn)
@@ -180,8 +182,11 @@ class C05(F.PropCheck):
                ('RECV', [], reg_result(3, T, 1))]
         if T != K()['ACTIVITY_TIMEOUT_DEFAULT']:
             g = T if grant is None else grant
-            evs += [('ADV', [rng.choice([150000, 300000])], b''), ('RECV', [], sat_result(g, 2))]
+            evs += [('ADV', [rng.choice([150000, 300000])], b''), ('RECV', [], sat_result(g, 2, *self.minmax(rng, g)))]
         return evs
+    def minmax(self, rng, g):
+        """min / max bytes of the set-activity-timeout result: the device must ignore them"""
+        return rng.choice([(5, 240), (5, 240), (0, 255), (g + 1, 240), (5, max(g - 1, 0)), (255, 0), (77, 3)])
     def local_traffic(self, rng, total_us, mode):
         """events covering total_us of time with the given local traffic pattern"""
         evs = []; t = 0
@@ -214,7 +219,7 @@ class C05(F.PropCheck):
         fast = 200000 if aged else None      # an aged device must hear from the server within its first second (last_response = 0 at boot)
         def reg(T, grant=None):
             if aged: return [('WIFI', [5], b''), ('ADV', [200000], b''), ('CONNCB', [], b''), ('RECV', [], reg_result(3, T, 1))] + \
-                            ([('ADV', [150000], b''), ('RECV', [], sat_result(T if grant is None else grant, 2))] if T != 10 else [])
+                            ([('ADV', [150000], b''), ('RECV', [], sat_result(T if grant is None else grant, 2, *self.minmax(rng, T)))] if T != 10 else [])
             return self.up_and_register(rng, T, grant)
         if k < 0.10 and not aged:
             # registration REFUSED (or version error): the firmware stops (stop_with_delay, started = 0); with a server that stays silent
@@ -254,9 +259,13 @@ class C05(F.PropCheck):
                 evs += self.local_traffic(rng, rng.choice([5, 8, 15, 25, 40, 55, 70]) * S + rng.randrange(0, S), rng.choice(['none', 'periodic', 'random']))
             evs += self.local_traffic(rng, rng.choice([3, 20]) * S, 'none')
         elif k < 0.45:
-            T = rng.choice([10, 10, 11, 15, 20, 30, 45, 50, rng.randrange(10, 51)]); tags.add('keepalive'); tags.add('T<=50')
+            # granted timeout T over the whole range of the theorem (5..58); when the register result carries another value T0 the device
+            # asks for 10 and the set-activity-timeout result grants T (any min / max bytes): the schedule must follow the granted value
+            T = rng.choice([10, 10, 11, 15, 20, 30, 45, 50, 5, 6, 9, 51, 55, 58, rng.randrange(5, 59)]); tags.add('keepalive'); tags.add('T<=50' if T <= 50 else 'T<=58')
             evs.append(('SERVER', [rng.choice([0, 1000, 50000, 300000, 600000, 900000, 999000])], b''))
-            evs += reg(T)
+            if T != 10 and rng.random() < 0.5:
+                T0 = rng.choice([30, 120, 240, 0, 3, 200, 11]); T0 = T0 if T0 != T else 60; tags.add('negotiated'); evs += reg(T0, grant=T)
+            else: evs += reg(T)
             mode = rng.choice(['none', 'none', 'periodic', 'periodic', 'burst', 'random']); tags.add('traffic:' + mode)
             evs += self.local_traffic(rng, (2 * T + rng.choice([8, 15, 25])) * S, mode)
         elif k < 0.80:
